@@ -14,10 +14,11 @@ variable {κ δ ε : Type} [DecidableEq κ] [DecidableEq δ] [DecidableEq ε]
 
 theorem rel_init (be : Backend) (E : Enc κ δ ε) (kindOf : Nat → Kind) :
     Rel be E kindOf {} (Spec.init : Spec κ δ ε) := by
-  refine ⟨?_, ⟨?_, ?_⟩, ?_, ?_, ?_, ?_⟩
+  refine ⟨?_, ⟨?_, ?_, ?_⟩, ?_, ?_, ?_, ?_⟩
   · intro id n h; simp at h
   · intro c d k _; simp [Disk.col, Spec.init]
   · intro c _ x; simp [Disk.col, Spec.init, akeys]
+  · intro n; simp [Disk.col, akeys]
   · intro h; simp [Spec.init]
   · intro s; simp [Spec.init]
   · intro h ops hg; simp [Spec.init] at hg
@@ -262,8 +263,29 @@ theorem step_sim (be : Backend) (E : Enc κ δ ε) (kindOf : Nat → Kind) (hE :
     · intro x; rw [hb1]; exact hR.batches x
     · intro x; rw [hs1]; exact hR.sbufs x
     · simp only [ObsMatch, Cmd.col]
-      intro y
       have hp : allFF (setPrefix (E.encK c k)) = false := setPrefix_not_allFF _ (hE.lenK c k)
+      refine ⟨?_, ?_⟩
+      rotate_left
+      · -- each member once
+        apply nodup_map_of_inj_on
+        · intro x hx y hy hxy
+          rw [mem_scanKeys _ _ _ _ hp, hd1] at hx hy
+          obtain ⟨k1, e1, rfl, _⟩ := (hR.disk.sets c hkind x).mp hx.1
+          obtain ⟨k2, e2, rfl, _⟩ := (hR.disk.sets c hkind y).mp hy.1
+          have h1 := hE.injK c hkind _ _
+            ((setPrefix_prefix_setKey_iff _ _ _ (hlen _ _) (hlen _ _)).mp hx.2)
+          have h2 := hE.injK c hkind _ _
+            ((setPrefix_prefix_setKey_iff _ _ _ (hlen _ _) (hlen _ _)).mp hy.2)
+          subst h1
+          subst h2
+          rw [splitMember_setKey _ _ (hlen _ _), splitMember_setKey _ _ (hlen _ _)] at hxy
+          rw [Option.some.inj hxy]
+        · unfold scanKeys
+          apply nodup_sortKeys
+          have hn := hR.disk.nodup (cfName be.namePrefix Kind.set c)
+          rw [← hd1] at hn
+          cases be.boundScan <;> exact nodup_filter_keys _ _ hn
+      intro y
       simp only [List.mem_map]
       constructor
       · rintro ⟨x, hx, rfl⟩
